@@ -160,6 +160,19 @@ def main(argv=None):
             try:
                 o = mod.run(case, drv)
             except Exception as e:  # noqa: BLE001
+                frames = traceback.extract_tb(e.__traceback__)
+                in_impl = [f for f in frames if str(Path(f.filename).resolve()).startswith(str((REPO / 'src').resolve()))]
+                if in_impl:
+                    # the library raised on an input for which the property promises a result (the harness only makes calls that
+                    # succeed on the tree it was written against): that is a failing input, not an infrastructure problem
+                    last = in_impl[-1]
+                    o = Outcome(key=('raises', case.get('kind', '?'), type(e).__name__), viol={
+                        'signature': f'raises:{case.get("kind", "?")}:{type(e).__name__}',
+                        'what': f'mrpro raises {type(e).__name__}: {str(e)[:160]} (in {Path(last.filename).name}:{last.lineno} {last.name}) for case '
+                                f'{json.dumps(case, default=str)[:300]}'})
+                    outcomes.append(o)
+                    viols.append((case, o))
+                    continue
                 errors.append((case, ''.join(traceback.format_exception_only(type(e), e)).strip(), traceback.format_exc()))
                 continue
             outcomes.append(o)
